@@ -1,2 +1,3 @@
 import Tie.Flags
 import Tie.Excerpt
+import Tie.MetaTable
